@@ -734,7 +734,7 @@ def render(case, all_active=False):
         t.append(case["units"])
     t += ["TABDIMS", " %d %d /" % (INT_MAX, INT_MAX), "EQLDIMS", " %d /" % INT_MAX, "REGDIMS", " %d /" % INT_MAX,
           "ENDSCALE", " /"]
-    if case["nrmult"] > 0:
+    if case["nrmult"] > 0 or case.get("gridopts"):
         t += ["GRIDOPTS", " 'YES' %d /" % case["nrmult"]]
     t += ["GRID", "DXV", " %d*%s /" % (nx, fnum(case["dxyz"][0])), "DYV", " %d*%s /" % (ny, fnum(case["dxyz"][1])),
           "DZV", " %d*%s /" % (nz, fnum(case["dxyz"][2])), "TOPS", " %d*1000 /" % (nx * ny)]
@@ -1037,6 +1037,7 @@ class Gen:
             nops = max(1, total * weights[sec] // wsum)
             prog[sec] = self.gen_section(sec, nops, self.i(1, 3))
         return {"dims": [nx, ny, nz], "actnum": act, "units": units, "nrmult": nrmult,
+                "gridopts": nrmult > 0 or self.chance(40),
                 "dxyz": [self.pick([10.0, 25.0, 7.5]), self.pick([10.0, 20.0]), self.pick([2.0, 5.0, 1.5])],
                 "prog": prog}
 
@@ -1069,13 +1070,63 @@ class C12(Check):
             "definedness so that every operation is inside the library's accepted domain; non-trivial = some active "
             "cell has active index != global index, >= 1 sub-box or region operation and >= 3 operations on one "
             "array; distinct by (operation multiset, box shapes, ACTNUM pattern)")
-    ASSUMPTIONS = []
-    EXAMPLES = {"quick": 150, "thorough": 3000}
-    MIN_EVALS = {"quick": 1200, "thorough": 20000}
-    TIME_CAP = {"quick": 170, "thorough": 1100}
-    LEVEL_TEXT = ""
-    LEVEL_NOTE = ""
-    TECHNIQUE = ""
+    ASSUMPTIONS = [
+        "Semantics taken from the Eclipse manual wording the property paraphrases: EQUALS assigns, ADD adds a shift (a "
+        "difference: unit factor, no offset), MULTIPLY multiplies by a dimensionless factor, MINVALUE/MAXVALUE clamp from "
+        "below/above, COPY copies the source cells of the box, OPERATE functions R=f(R,X,alpha,beta) as tabulated in the "
+        "manual, region variants act on the cells whose region array currently holds the given id; a defaulted entry (n*) "
+        "of an array keyword keeps what the cell had; a record without box uses the box of the previous record of the "
+        "same keyword, the first record the current BOX (whole grid after ENDBOX / at the start of a section).",
+        "From comments in FieldProps.cpp/.hpp (conventions the statement leaves open): region set defaults to MULTNUM "
+        "when GRIDOPTS NRMULT > 0, else FLUXNUM; OPERATER defaults to OPERNUM; MULT* and MULTPV entered in EDIT are "
+        "collected separately and multiplied onto the GRID values at the end of EDIT; scalar defaults NTG=1, MULT*=1, "
+        "MULTPV=1, MULTNUM=SATNUM=PVTNUM=EQLNUM=FIPNUM=ENDNUM=1; region operations do not reach inactive cells of "
+        "global-storage arrays (MULTZ, MULTZ-, PERMX/Y/Z).",
+        "Values are compared in SI with an independent unit table (exact rationals from the physical definitions); the "
+        "tolerance is a propagated bound: 8 ulp per converted deck value, 1 ulp per arithmetic operation, interval "
+        "evaluation for pow/log/inverse, + 2 ulp.",
+        "Not asserted: partially defaulted boxes (some of I1..K2 given), an open BOX across a section end, TRAN*, "
+        "MULTREGT/MULTREGP, derived PORV (only cells assigned in EDIT are compared), PORV mixed with MULTPV in EDIT, "
+        "saturation end-point and TEMPI default values (cells keep 'unknown default'), top-layer distribution of "
+        "incompletely given PORO/PERM* (covered by the all-active comparison only), OPERATE with non-linear functions on "
+        "dimensioned arrays or on TEMPI (the library works in SI; the manual semantics is in deck units), COPY/OPERATE/"
+        "region operations on MULT* in EDIT, the SCHEDULE section, value statuses (defaulted()).",
+        "Operations the library legitimately refuses (operating on cells without a value, COPY from cells without a deck "
+        "value, incomplete region arrays, source/target storage mismatch) are never generated: the generator runs the "
+        "interpreter and requires the precondition on ALL global cells, so that the masked and the all-active run accept "
+        "the same program.",
+    ]
+    EXAMPLES = {"quick": 250, "thorough": 4000}
+    MIN_EVALS = {"quick": 800, "thorough": 8000}
+    TIME_CAP = {"quick": 160, "thorough": 1050}
+    LEVEL_TEXT = ("Generated-program search with two independent oracles.  Every generated program (<= 25 keywords: array "
+                  "data in the whole grid or a BOX with n* entries, BOX/ENDBOX, EQUALS, ADD, MULTIPLY, MINVALUE, MAXVALUE, "
+                  "COPY, OPERATE with all 14 functions, EQUALREG, ADDREG, MULTIREG, COPYREG, OPERATER with region sets "
+                  "M/F/O/default, over 42 integer and floating arrays of GRID, EDIT, PROPS, REGIONS and SOLUTION, four "
+                  "unit systems) is run through EclipseState twice: with the generated ACTNUM and all-active.  (i) A "
+                  "reference interpreter over global cells predicts, for all 42 arrays, whether get_double/get_int can "
+                  "be read and the value of every active cell within a propagated rounding bound, plus get_global_* in "
+                  "active cells and, for global-storage arrays, in inactive cells.  (ii) Every active cell of every "
+                  "array must be bit-identical in the masked and the all-active run.")
+    LEVEL_NOTE = ("Sampled, not exhaustive.  The interpreter is mine: where it and the library agree on a wrong reading of "
+                  "the manual, only oracle (ii) still bites.  Five defects of the library are suppressed by signature "
+                  "(known_findings.jsonl); the combinations that trigger them are generated in 8 % of the cases only and "
+                  "a mismatch is attributed to them only on arrays that such an operation influenced.  Trusted: the "
+                  "Python interpreter, the unit table, glibc pow/log being the same function in Python and in the library.")
+    TECHNIQUE = ("property-based testing (Hypothesis, stateful generation against a reference interpreter), "
+                 "differential comparison with the interpreter and a metamorphic all-active run")
+
+    def floors(self, tier):
+        f = {"nontrivial": 0.10, "actnum:active-index!=global-index": 0.30, "data-defaulted-entries": 0.10,
+             "box-inherited-from-record": 0.05, "box-inherited-from-BOX": 0.03, "data-in-subbox": 0.03,
+             "edit-multiplier": 0.03, "global-storage-target": 0.10, "multi-record": 0.15}
+        for k in SCALAR_OPS + REG_OPS + ["COPY", "COPYREG", "OPERATE", "OPERATER", "BOX"]:
+            f["op:" + k] = 0.03
+        for sname in SECTIONS:
+            f["sec:" + sname] = 0.15
+        for u in UNITS:
+            f["units:" + u] = 0.05
+        return f
 
     def strategy(self, tier):
         return cases(tier)
@@ -1084,7 +1135,8 @@ class C12(Check):
     def classify(self, case):
         act = case["actnum"]
         nx, ny, nz = case["dims"]
-        labels = ["units:" + case["units"], "default-region:" + ("MULTNUM" if case["nrmult"] else "FLUXNUM")]
+        labels = ["units:" + case["units"], "default-region:" + ("MULTNUM" if case["nrmult"] else "FLUXNUM" +
+                                                               ("(GRIDOPTS NRMULT=0)" if case.get("gridopts") else ""))]
         shifted = any(a and not all(act[:g]) for g, a in enumerate(act))
         if all(act):
             labels.append("actnum:all-active")
@@ -1206,6 +1258,13 @@ class C12(Check):
             return V("all-active run has inactive cells", r2["actnum"])
 
         keyed = []          # violations on arrays that a known defect may have influenced: reported last
+        for a in m.A.values():
+            if a.opaque:
+                ctx.label("oracle-ii-only:top-layer-distribution")
+            for t in a.taint:
+                ctx.label("touches-known-defect:" + t)
+        ctx.label("arrays-compared-with-interpreter", sum(1 for nm in ARR if o1[nm]["data"] is not None))
+        ctx.label("arrays-compared-metamorphic", sum(1 for nm in ARR if o1[nm]["data"] is not None and o2[nm]["data"] is not None))
 
         def report(name, rule, detail, key=None):
             a = m.A.get(name)
